@@ -2,4 +2,6 @@ package main
 
 import (
 	_ "verif/props/c11"
+	_ "verif/props/c15"
+	_ "verif/props/c37"
 )
